@@ -25,6 +25,9 @@ CHECKS = {
  "C12": dict(cat="model_checking", tech="TLA+ Bellman/DTM specification over the rule book (FewMen.tla) + TLC validation of table rows (certificates) and of abort-injection traces",
    text="For rows of the real TBGenerator (own-memory and in-hash back ends) TLC checks against the rule book: successor list = Legal(pos), the Bellman optimality equation between the row value and all probed successor values (mate/stalemate leaves included), 'not found' exactly outside the table's scope (castling rights, pawns, foreign material). One 3-man class is enumerated over all 64^3 x 2 raw placements per run, the other 3-man and a rotating sample of 4-man classes are sampled. Aborts are injected at every phase boundary through a TEXEL_VERIF hook that arms the real time-limit/stop tests, followed by hash traffic; every later probe must be unanswered and a completed table must lie outside the hash region.",
    note="Trusted: TLC, Chess.tla/FewMen.tla, harness/h_tb.cpp; exactness follows from local consistency on all rows (exhaustive class) and is sampled elsewhere."),
+ "C13": dict(cat="model_checking", tech="TLA+ DTM specification (FewMen.tla) + TLC validation of engine reports against certified table rows",
+   text="Roots are random legal placements of pawnless <=4-man classes with half-move clocks 0..99 (nets, Threads 1..4, Hash 8..64). The real engine runs 'go infinite' until its on-demand table is built, then is stopped; TLC checks (Tr_TB.tla, TTbSearch): oracle row Bellman-consistent, reported score = exact 'mate +-DTM' when the mate completes before the 50-move limit, drawn roots never a mate score, beyond the limit no mate with three men and never a mate shorter than DTM, best move legal, keeps a shortest mate, never turns a draw into a loss.",
+   note="Trusted: TLC, FewMen.tla, the DTM rows of TBGenerator<VectorStorage> (C12's claim, each used row re-checked for Bellman consistency)."),
 }
 
 NOT_APPLICABLE = {
